@@ -521,22 +521,33 @@ def rule_driver(prog, rep):
         rep.undecided("C10.driver", site, "driver", f"not a scan fold: {show(t, 200)}")
         return
     scan_it, lam, inits = t[1], t[2], t[3]
-    rep.check(scan_it[2] == N and scan_it[1] == C(None) and scan_it[3] == C(False), "C10.driver", site,
-              "driver:length-steps", f"scan(length={show(scan_it[2])})", f"scan iterates {show(scan_it, 120)}")
+    # the coordinate index is either carried (0, then + 1 per step) or scanned over: xs = arange(length)
+    xs_t = scan_it[1]
+    ar_ = xs_t[0] == "call" and xs_t[1] == ("ext", "jax.numpy.arange") and ([a_ for a_ in xs_t[2]] + [v_ for _, v_ in xs_t[3]]) == [N]
+    over_indices = bool(ar_) and lam[1] == 2
+    rep.check((scan_it[1] == C(None) or over_indices) and scan_it[2] in (N, C(None)) and (scan_it[2] == N or over_indices)
+              and scan_it[3] == C(False), "C10.driver", site,
+              "driver:length-steps", f"scan(length={show(scan_it[2])})" + (" over arange(length)" if over_indices else ""),
+              f"scan iterates {show(scan_it, 120)}")
     mid0 = mk_div(mk_add((UP, LO)), C(2))
-    ok = inits[0] == "tuple" and len(inits[1]) == 2 and inits[1][1] == C(0) and inits[1][0][0] == "call" \
+    n_carry = 1 if over_indices else 2
+    ok = inits[0] == "tuple" and len(inits[1]) == n_carry and (over_indices or inits[1][1] == C(0)) and inits[1][0][0] == "call" \
         and inits[1][0][1] == ("ext", "jax.numpy.full") and equal(dict(inits[1][0][3]).get("fill_value"), mid0) \
         and dict(inits[1][0][3]).get("shape") == N and set(dict(inits[1][0][3])) <= {"fill_value", "shape"}
     rep.check(ok, "C10.driver", site, "driver:init", "start = (full(length, midpoint), 0), in the midpoint's own (floating) dtype",
               f"initial carry {show(inits, 200)} (a dtype taken from the bounds makes the working vector integer for integer bounds)")
     lvl = lam_level(lam)
-    vec, idx = ("bv", lvl, 1), ("bv", lvl, 2)
+    vec, idx = ("bv", lvl, 1), (("bv", lvl, 0) if over_indices else ("bv", lvl, 2))
     bodies = lam[2][1]
-    if lam[1] != 3 or len(bodies) != 2:
+    if lam[1] != 1 + n_carry or len(bodies) != n_carry:
         rep.undecided("C10.driver", site, "driver:carry", f"carry not (vector, index): {show(lam, 200)}")
         return
-    b0, b1 = bodies
-    rep.check(equal(b1, mk_add((idx, C(1)))), "C10.driver", site, "driver:i+1", show(b1), f"index update {show(b1, 100)}")
+    b0 = bodies[0]
+    if over_indices:
+        rep.holds("C10.driver", site, "driver:i+1", "the index is the scanned element of arange(length): 0, 1, ..., length-1")
+    else:
+        b1 = bodies[1]
+        rep.check(equal(b1, mk_add((idx, C(1)))), "C10.driver", site, "driver:i+1", show(b1), f"index update {show(b1, 100)}")
     okw = b0[0] == "at" and b0[1] == vec and b0[2] == idx and b0[3] == "set"
     rep.check(okw, "C10.driver", site, "driver:write-root-at-i", show(b0, 100), f"write-back is {show(b0, 200)}")
     if okw:
